@@ -25,6 +25,9 @@ def _kjoin(a, b):
     a = 'c' if a == 'z' else a
     b = 'c' if b == 'z' else b
     order = 'bifc'
+    if a not in order or b not in order:
+        # unknown ('?') or object ('O') element kinds: the kind of the result is not known either
+        return '?' if 'O' not in (a, b) else 'O'
     return a if order.index(a) >= order.index(b) else b
 
 
